@@ -774,3 +774,111 @@ func init() {
 			}
 		}})
 }
+
+func init() {
+	register(&Rule{ID: "T7", Min: 4, Text: "permission before effect in the service layer: in every production function that calls authz.CheckPermission, each call that writes the database — a writing method of database.Database (Create…, Update…, Delete…, Remove…, Upsert…, Rotate…, Purge…, Change…) or a function through which one is reached — in that function is dominated by the permission check and lies on its error == nil edge — a check made after the write still answers 'not found / denied' to the intruder, but the victim's row has already been rewritten",
+		Run: func(x *Ctx) {
+			chk := x.P.FnObj("server/authz.CheckPermission")
+			dbI := x.P.Named(dbPkg + ".Database")
+			if chk == nil || dbI == nil {
+				x.C.Unresolved(x.id(), "authz.CheckPermission / database.Database")
+				return
+			}
+			writes := []string{"Create", "Update", "Delete", "Remove", "Upsert", "Rotate", "Purge", "Change", "Compact"}
+			isWrite := func(name string) bool {
+				for _, w := range writes {
+					if strings.HasPrefix(name, w) {
+						return true
+					}
+				}
+				return false
+			}
+			// functions through which a database write is reached
+			writers := map[*ssa.Function]bool{}
+			it := dbI.Underlying().(*types.Interface)
+			for i := 0; i < it.NumMethods(); i++ {
+				if isWrite(it.Method(i).Name()) {
+					for g := range x.reaching(it.Method(i)) {
+						writers[g] = true
+					}
+				}
+			}
+			n := 0
+			for _, fn := range x.P.ProdFuncs() {
+				cs := callsToIn(fn, chk)
+				if len(cs) == 0 {
+					continue
+				}
+				cnt := map[string]int{}
+				for _, c := range prog.CallsIn(fn) {
+					cc := c.Common()
+					name := ""
+					if cc.IsInvoke() && isNamed(cc.Value.Type(), dbI) && isWrite(cc.Method.Name()) {
+						name = cc.Method.Name()
+					} else if g := cc.StaticCallee(); g != nil && writers[g] && prog.CallObj(c) != chk {
+						name = g.Name()
+					}
+					if name == "" {
+						continue
+					}
+					n++
+					cnt[name]++
+					ok := false
+					for _, p := range cs {
+						pc, isCall := p.(*ssa.Call)
+						if isCall && prog.Dominates(p, c) && x.quietGuarded(c, []Cmp{errNilCmp(pc)}) {
+							ok = true
+						}
+					}
+					x.check(ok, fmt.Sprintf("func=%s write=%s#%d permission-checked-first", prog.FnName(fn), name, cnt[name]), x.pos(c),
+						"the write is reached only after CheckPermission returned nil", "a database write in a function that checks permission is not dominated by the check's success edge: an authenticated user without a role in the project changes its stored state before being refused")
+				}
+			}
+			if n < 4 {
+				x.C.Vacuous(x.id()+" writes under permission", n, 4)
+			}
+		}})
+
+	register(&Rule{ID: "T8", Min: 2, Text: "the authorisation-webhook verdict cache is scoped by project: every key handed to the AuthWebhook cache (Get and Add in package server/rpc/auth) is computed from the project the request was resolved to (a field of the *types.Project parameter) as well as from the request body — a verdict that project A's webhook gave must never answer a request to project B",
+		Run: func(x *Ctx) {
+			prjT := x.P.Named("api/types.Project")
+			if prjT == nil {
+				x.C.Unresolved(x.id(), "types.Project")
+				return
+			}
+			n := 0
+			for _, fn := range x.P.FuncsIn("server/rpc/auth") {
+				var prj *ssa.Parameter
+				for _, pm := range fn.Params {
+					if pt, ok := pm.Type().(*types.Pointer); ok && isNamed(pt.Elem(), prjT) {
+						prj = pm
+					}
+				}
+				i := 0
+				for _, c := range prog.CallsIn(fn) {
+					o := prog.CallObj(c)
+					if o == nil || !(o.Name() == "Get" || o.Name() == "Add") {
+						continue
+					}
+					rv := recvOf(c)
+					f := prog.LoadedField(rv)
+					if f == nil || f.Name() != "AuthWebhook" {
+						continue
+					}
+					i++
+					n++
+					key := paramArg(c, 0)
+					ok := prj != nil && prog.DependsOn(key, func(w ssa.Value) bool {
+						if prog.LoadedField(w) == nil {
+							return false
+						}
+						return prog.Reaches(prog.FieldBase(w), func(u ssa.Value) bool { return u == ssa.Value(prj) })
+					})
+					x.check(ok, fmt.Sprintf("func=%s cache-%s#%d key-scoped-by-project", prog.FnName(fn), o.Name(), i), x.pos(c), "the cache key is computed from the project", "the key of the webhook verdict cache does not depend on the project: a token allowed by one project's webhook is served as allowed to another project")
+				}
+			}
+			if n < 2 {
+				x.C.Vacuous(x.id()+" cache accesses", n, 2)
+			}
+		}})
+}
